@@ -3,6 +3,7 @@ package harness
 import (
 	"fmt"
 	"sort"
+	"strconv"
 	"strings"
 	"syscall"
 
@@ -592,13 +593,15 @@ func (c20) Eval(c *Chooser, env *Env) *Outcome {
 			if is.Tool == "shellcheck" {
 				line-- // the first line of stdin is the implicit `set -e...` line: offsets refer to the user's script
 			}
-			needle1, needle2 := is.Code, fmt.Sprintf("%d:%d", line, is.Col)
+			// the wording of the diagnostic is not part of the property: it has to carry the issue's
+			// code and its (valid) line and column as numbers, in whatever layout
+			needle1 := is.Code
 			if is.Code == "PFCRLF" {
 				needle1 = "marker PFCRLF"
 			}
 			found := false
 			for i, m := range msgs {
-				if !used[i] && strings.Contains(m, needle1) && strings.Contains(m, needle2) && !strings.ContainsAny(m, "\r\n") {
+				if !used[i] && strings.Contains(m, needle1) && hasInt(m, line) && hasInt(m, is.Col) && !strings.ContainsAny(m, "\r\n") {
 					used[i], found = true, true
 					break
 				}
@@ -629,6 +632,23 @@ func (c20) Eval(c *Chooser, env *Env) *Outcome {
 		}
 	}
 	return o
+}
+
+// hasInt reports whether the decimal number n occurs in s as a number of its own
+// (not as part of a longer run of digits).
+func hasInt(s string, n int) bool {
+	d := strconv.Itoa(n)
+	for i := 0; ; {
+		j := strings.Index(s[i:], d)
+		if j < 0 {
+			return false
+		}
+		a, b := i+j, i+j+len(d)
+		if (a == 0 || s[a-1] < '0' || s[a-1] > '9') && (b == len(s) || s[b] < '0' || s[b] > '9') {
+			return true
+		}
+		i = a + 1
+	}
 }
 
 func faultKinds(faulted []string) []string {
